@@ -123,6 +123,7 @@ func (e *Exec) runInit() {
 // runPath executes one path. It returns the sibling prefixes discovered and how the path ended.
 func (e *Exec) runPath(h *ssa.Function, prefix []Decision) (end string, msg string) {
 	e.resetPath(prefix)
+	e.pathStart = time.Now()
 	e.sol = e.solBV
 	e.sol.Push()
 	defer func() {
@@ -280,6 +281,10 @@ func exploreHarness(p *Program, h *ssa.Function, cfg Config) *HarnessResult {
 				return true
 			}
 			return false
+		}
+		e.pathBudget = 3 * time.Minute
+		if cfg.Tier == "thorough" {
+			e.pathBudget = 15 * time.Minute
 		}
 		npaths := 0
 		for {
